@@ -613,7 +613,10 @@ int main(int argc, char **argv)
 	}
 	vp_watchdog_start((uint64_t) vp_arg_long("stall-ms", 40000), wd_confirm);
 
-	for (long rep = 0; rep < opt_reps && vp_nviolations() < 24; rep++) {
+	/* the repetition number selects API variants (locked / lock-free head types, allocator, flags, first or
+	 * second cmpxchg attempt of parked pushers, ...): start at a seed-dependent offset */
+	long rep0 = (long) (vp_opt.seed % 6);
+	for (long rep = rep0; rep < rep0 + opt_reps && vp_nviolations() < 24; rep++) {
 		if (group_enabled("wfcq")) run_wfcq(rep);
 		if (group_enabled("wfs")) run_wfs(rep);
 		if (group_enabled("lfs")) run_lfs(rep);
